@@ -893,7 +893,14 @@ fn scan_trivia(source: &str) -> Vec<Scanned> {
     let mut escaped = false;
     let mut line_start = 0usize;
     let mut line_blank = true;
+    // Blank lines before the first code or comment are dropped from the output (see
+    // `collapse_blanks`), so they must not count as trivia either: a leading blank attached to
+    // the first step would force its sequence to break on this pass but not on the next.
+    let mut seen_content = false;
     while let Some((index, c)) = chars.next() {
+        if !c.is_whitespace() {
+            seen_content = true;
+        }
         if in_string {
             match c {
                 _ if escaped => escaped = false,
@@ -911,7 +918,7 @@ fn scan_trivia(source: &str) -> Vec<Scanned> {
         }
         match c {
             '\n' => {
-                if line_blank {
+                if line_blank && seen_content {
                     out.push(Scanned::Blank(line_start));
                 }
                 line_start = index + 1;
@@ -1266,7 +1273,13 @@ fn render_type_arguments(arguments: &[Type]) -> String {
 }
 
 fn render_tuple_type(tuple_type: &TupleType) -> String {
-    let name = tuple_type.name.clone().unwrap_or_default();
+    // The `'alias[..., field: type]` form stores the (lowercase) alias name here; it needs its
+    // `'` back, or the output is a bare identifier and no longer parses as a type.
+    let name = match &tuple_type.name {
+        Some(name) if name.starts_with(|c: char| c.is_lowercase()) => format!("'{}", name),
+        Some(name) => name.clone(),
+        None => String::new(),
+    };
     if tuple_type.fields.is_empty() {
         return if tuple_type.is_partial {
             format!("{}()", name)
